@@ -228,6 +228,20 @@ class SRange:
     def __init__(self, start, stop, step):
         self.start, self.stop, self.step = start, stop, step
 
+    def pyvc_getitem(self, interp, k):
+        if isinstance(k, slice):
+            raise Unsupported("slice of a symbolic range")
+        n = interp.call(interp.builtins['len'], [self], {})
+        j = sym.ite(k < 0, k + n, k)
+        if sym.truth(sym.lor(j < 0, j >= n)):
+            interp.throw('IndexError', 'range object index out of range')
+        return self.start + j * self.step
+
+    def pyvc_getattr(self, interp, name):
+        if name in ('start', 'stop', 'step'):
+            return getattr(self, name)
+        return _MISSING
+
 
 class SeqVal:
     """a sequence of symbolic length: n items, item(j) for 0 <= j < n (the values a uniform loop yields / a comprehension builds)"""
